@@ -1463,12 +1463,12 @@ class AnalyticFunction(AggregateFunction):
     @builder
     def over(self, *terms: Any) -> "Self":  # type:ignore[return]
         self._include_over = True
-        self._partition += terms
+        self._partition = self._partition + list(terms)
 
     @builder
     def orderby(self, *terms: Any, **kwargs: Any) -> "Self":  # type:ignore[return]
         self._include_over = True
-        self._orderbys += [(term, kwargs.get("order")) for term in terms]
+        self._orderbys = self._orderbys + [(term, kwargs.get("order")) for term in terms]
 
     def _orderby_field(self, field: Field, orient: Order | None, ctx: SqlContext) -> str:
         if orient is None:
